@@ -6,7 +6,7 @@ git -C /repo worktree add -q "$WT" HEAD || exit 2
 trap 'git -C /repo worktree remove --force "$WT" 2>/dev/null' EXIT
 git -C "$WT" apply "$PATCH" || { echo "patch does not apply"; exit 2; }
 for P in "$@"; do
-  VERIF_REPO=$WT timeout 1500 /verif/check "$P" --tier quick > /tmp/rf_out_$$ 2>&1; rc=$?
+  VERIF_REPO=$WT VERIF_EVIDENCE_DIR=/tmp/rf_ev_$$ timeout 3000 /verif/check "$P" --tier quick > /tmp/rf_out_$$ 2>&1; rc=$?
   echo "== $P exit=$rc $(tail -1 /tmp/rf_out_$$ | cut -c1-150)"
   grep '^VIOLATION\|^NOTE\|CHECKER-ERROR\|^UNDEC\|^UNPROVED' /tmp/rf_out_$$ | head -4 | cut -c1-300
 done
